@@ -23,12 +23,18 @@ type WaitCase struct {
 	Cancel  int    `json:"cancel"`   // 0: none; j>0: cancel after attempt j returned (hour wait)
 	InCB    bool   `json:"in_cb"`    // cancel inside the callback instead of 20 ms after it returned
 	Upper   bool   `json:"upper"`    // this case decides the "no wait before the first / after the last attempt" clauses
+	FB      bool   `json:"fb,omitempty"`      // a fallback that swallows every error is installed
+	ExecUs  int    `json:"exec_us,omitempty"` // a failing attempt spends this long before it returns
 }
 
 type waitNode struct {
 	*flyt.BaseNode
 	w *waitRun
 }
+
+type waitNodeFB struct{ waitNode }
+
+func (n *waitNodeFB) ExecFallback(p any, err error) (any, error) { return "rescued", nil }
 
 type waitRun struct {
 	cs       *WaitCase
@@ -55,6 +61,9 @@ func (w *waitRun) exec(ctx context.Context, item int) (any, error) {
 	var err error
 	if a < w.cs.K {
 		err = fmt.Errorf("attempt %d of item %d fails", a, item)
+		if w.cs.ExecUs > 0 {
+			time.Sleep(time.Duration(w.cs.ExecUs) * time.Microsecond)
+		}
 	}
 	if w.cs.Cancel == a && item == 0 && w.cancel != nil {
 		if w.cs.InCB {
@@ -110,13 +119,26 @@ func runWaitCase(cs *WaitCase) (*waitObs, []finding) {
 	var slots []flyt.Result
 	switch cs.Kind {
 	case "struct":
-		node = &waitNode{flyt.NewBaseNode(flyt.WithMaxRetries(cs.N), flyt.WithWait(wait)), w}
+		wn := waitNode{flyt.NewBaseNode(flyt.WithMaxRetries(cs.N), flyt.WithWait(wait)), w}
+		if cs.FB {
+			node = &waitNodeFB{wn}
+		} else {
+			node = &wn
+		}
 	case "func":
-		node = flyt.NewNode().WithMaxRetries(cs.N).WithWait(wait).
+		nb := flyt.NewNode().WithMaxRetries(cs.N).WithWait(wait).
 			WithPrepFuncAny(func(ctx context.Context, s *flyt.SharedStore) (any, error) { w.prepEnd = time.Now(); return 0, nil }).
 			WithExecFuncAny(func(ctx context.Context, v any) (any, error) { return w.exec(ctx, 0) })
+		if cs.FB {
+			nb = nb.WithExecFallbackFunc(func(any, error) (any, error) { return "rescued", nil })
+		}
+		node = nb
 	case "batch":
-		node = flyt.NewBatchNode().WithMaxRetries(cs.N).WithWait(wait).WithBatchConcurrency(cs.C).
+		var bo []any
+		if cs.FB {
+			bo = append(bo, flyt.WithExecFallbackFunc(func(any, error) (any, error) { return "rescued", nil }))
+		}
+		node = flyt.NewBatchNode(bo...).WithMaxRetries(cs.N).WithWait(wait).WithBatchConcurrency(cs.C).
 			WithPrepFunc(func(ctx context.Context, s *flyt.SharedStore) ([]flyt.Result, error) {
 				r := make([]flyt.Result, cs.Items)
 				for i := range r {
@@ -237,7 +259,10 @@ func runC20(c *Cfg) {
 					if !c.Thorough() && w >= 20*time.Millisecond && k > 1 && k < n {
 						continue // quick: for the long waits only the extreme failure sequences
 					}
-					cases = append(cases, &WaitCase{Family: "lower-bound", Kind: kind, WaitNs: int64(w), N: n, K: k})
+					cases = append(cases, &WaitCase{Family: "lower-bound", Kind: kind, WaitNs: int64(w), N: n, K: k, FB: (n+k)%3 == 0})
+					if w == 5*time.Millisecond && k > 1 { // attempts that take time before they fail: the wait starts when the attempt ENDS
+						cases = append(cases, &WaitCase{Family: "lower-bound-slow-exec", Kind: kind, WaitNs: int64(w), N: n, K: k, ExecUs: 4000})
+					}
 				}
 			}
 		}
@@ -246,7 +271,10 @@ func runC20(c *Cfg) {
 		for _, w := range waits[:3] {
 			for n := 2; n <= 3; n++ {
 				cases = append(cases, &WaitCase{Family: "lower-bound-batch", Kind: "batch", WaitNs: int64(w), N: n, K: n, C: cc, Items: 5})
-				cases = append(cases, &WaitCase{Family: "lower-bound-batch", Kind: "batch", WaitNs: int64(w), N: n, K: n + 1, C: cc, Items: 3})
+				cases = append(cases, &WaitCase{Family: "lower-bound-batch", Kind: "batch", WaitNs: int64(w), N: n, K: n + 1, C: cc, Items: 3, FB: cc == 2})
+				if w == 5*time.Millisecond {
+					cases = append(cases, &WaitCase{Family: "lower-bound-slow-exec", Kind: "batch", WaitNs: int64(w), N: n, K: n + 1, C: cc, Items: 3, ExecUs: 4000})
+				}
 			}
 		}
 	}
@@ -254,6 +282,7 @@ func runC20(c *Cfg) {
 	for _, kind := range []string{"struct", "func", "batch"} {
 		cases = append(cases, &WaitCase{Family: "upper", Kind: kind, WaitNs: int64(300 * time.Millisecond), N: 2, K: 1, Upper: true, Items: 2})
 		cases = append(cases, &WaitCase{Family: "upper", Kind: kind, WaitNs: int64(300 * time.Millisecond), N: 2, K: 3, Upper: true, Items: 1})
+		cases = append(cases, &WaitCase{Family: "upper", Kind: kind, WaitNs: int64(300 * time.Millisecond), N: 5, K: 1, Upper: true, Items: 2})
 	}
 	// interruptibility: 1-hour wait, cancelled after the first attempt (later attempt indices cannot be reached
 	// through an hour-long wait), from a helper goroutine 20 ms later and from inside the callback
@@ -265,6 +294,7 @@ func runC20(c *Cfg) {
 						continue
 					}
 					cases = append(cases, &WaitCase{Family: "interrupt", Kind: kind, WaitNs: int64(time.Hour), N: n, K: n + 1, Cancel: 1, InCB: in, C: cc, Items: 3})
+					cases = append(cases, &WaitCase{Family: "interrupt", Kind: kind, WaitNs: int64(time.Hour), N: n, K: n + 1, Cancel: 1, InCB: in, C: cc, Items: 3, FB: true})
 				}
 			}
 		}
@@ -277,7 +307,7 @@ func runC20(c *Cfg) {
 	}
 	for _, kind := range []string{"struct", "func", "batch"} {
 		for _, j := range lateJ {
-			cases = append(cases, &WaitCase{Family: "interrupt-late", Kind: kind, WaitNs: int64(400 * time.Millisecond), N: j + 1, K: j + 2, Cancel: j, C: 2, Items: 2})
+			cases = append(cases, &WaitCase{Family: "interrupt-late", Kind: kind, WaitNs: int64(400 * time.Millisecond), N: j + 1, K: j + 2, Cancel: j, C: 2, Items: 2, FB: j%2 == 0})
 		}
 	}
 	parallelN(c, len(cases), 24, func(i int) {
